@@ -991,7 +991,7 @@ func (x *Exec) evalSpecCall2(sc *specCtx, e *ast.CallExpr) Value {
 			return PoisonV{}
 		}
 		return Scalar{x.ghostCalls(sc, e.Args), types.Typ[types.Int]}
-	case "ret", "arg", "panicked", "happened":
+	case "ret", "arg", "panicked", "panicnil", "happened":
 		if sc.noGhost {
 			return PoisonV{}
 		}
@@ -1911,6 +1911,17 @@ func (x *Exec) ghostEventQuery(sc *specCtx, kind string, args []ast.Expr) Value 
 		for _, ev := range evs {
 			if ev.Panicked {
 				return Scalar{tTrue, boolT}
+			}
+		}
+		return Scalar{tFalse, boolT}
+	case "panicnil":
+		// panicnil(f): a call of f panicked with a nil value (`panic(nil)`)
+		for _, ev := range evs {
+			if ev.Panicked {
+				if iv, ok := ev.PanicVal.(IfaceV); ok {
+					return Scalar{eq(iv.Tag, intLit(0)), boolT}
+				}
+				return Scalar{tFalse, boolT}
 			}
 		}
 		return Scalar{tFalse, boolT}
